@@ -100,6 +100,47 @@ def stale_child_merge(claripy, drv, stats):
     return None
 
 
+def stale_merged_cache(claripy, drv, stats):
+    """a cached merged solver (CompositedCacheMixin) must not survive a change of a child it was combined from, even when
+    the names it was requested for are untouched.  -> failure dict or None"""
+    import solverhist
+    c = claripy
+    u = solverhist.Universe(c, drv, tag="c12mc_")
+    x, y, z = u.x, u.y, u.z
+
+    def quiet(f):
+        try:
+            return f()
+        except c.errors.ClaripyError:
+            return None
+
+    for k1, k2 in ((11, 15), (3, 9), (15, 1)):
+        s = c.SolverComposite()
+        for f in (lambda: s.max(y, signed=True), lambda: s.min(c.LShR(x, 1), signed=True), lambda: s.eval(y, 5), lambda: s.max(z),
+                  lambda: s.is_true(c.ULT(x, 12))):
+            quiet(f)
+        s.split()
+        quiet(lambda: s.max(c.Concat(z, x[0:0])))
+        quiet(lambda: s.max(c.LShR(x, 1)))
+        quiet(lambda: s.solution(z, 7, extra_constraints=[y // c.ZeroExt(1, z) == k1]))
+        cs = [x // 3 == 2, x % 3 == 1]
+        for con in cs:
+            s.add(con)
+        quiet(lambda: s.eval(c.ULT(x, 12), 2))
+        quiet(lambda: s.solution(z, 2, extra_constraints=[y // c.ZeroExt(1, z) == k2]))
+        stats["stale_cache_scenarios"] += 1
+        want = sorted(set(u.feasible(cs, x)))
+        got = quiet(lambda: sorted(s.eval(x, 20)))
+        bad = composite_invariant(u, s, cs)
+        if got != want or bad:
+            return {"what": "after a query that reuses a cached merged solver: eval(x, 20) = %s, enumeration says %s; %s" % (got, want, bad or ""),
+                    "constraints": [str(k) for k in cs],
+                    "history": ["queries on y, x, z", "split()", "max(z .. x[0:0])", "max(LShR(x, 1))", "solution(z, 7, extra=[y / (0#1 .. z) == %d])" % k1,
+                                "add(x / 3 == 2)", "add(x % 3 == 1)", "eval(x < 12, 2)", "solution(z, 2, extra=[y / (0#1 .. z) == %d])" % k2,
+                                "eval(x, 20)"]}
+    return None
+
+
 def main(tier, seed, replay=None):
     sys.path.insert(0, REPO)
     import claripy
@@ -131,6 +172,8 @@ def main(tier, seed, replay=None):
         stats["histories"] += n
         if not fail:
             fail = stale_child_merge(claripy, drv, stats)
+        if not fail:
+            fail = stale_merged_cache(claripy, drv, stats)
         if not fail:
             n2 = 40 if tier == "quick" else 1500
             fail = solverhist.cache_scenarios(claripy, drv, rng, facs, n2, report=rep, tag="c12cs")
